@@ -170,6 +170,16 @@ def _fix_kl_form(case):
     return case       # every locator has a URI text: it is written by the harness (PK.uri_name, typed components as <type>=<escaped>)
 
 
+def _kl_seq(case, rng):
+    """the locators the signer is configured with for its earlier certificates: other kinds and other name forms than the
+    one in force for the call under test, sometimes the very same one first (configured away and back again)"""
+    seq = [{'kl': _locator(rng.choice(['key', 'selfcert', 'cert', 'other']), case['key_name'], rng),
+            'form': rng.choice(['list', 'str', 'wire'])} for _ in range(rng.choice([1, 1, 2, 3]))]
+    if rng.random() < 0.35:
+        seq.insert(0, {'kl': list(case['kl']), 'form': rng.choice(['list', 'str', 'wire'])})
+    return seq
+
+
 def _locators(rng, tier):
     """every signer class with a key locator x self_sign / sign_req / derive_cert x the locator being the key name, the
     name of the key's self-signed certificate, of another certificate of the key, an unrelated name x handed to the
@@ -183,9 +193,14 @@ def _locators(rng, tier):
                 forms = ['list', 'str', 'wire'] if tier != 'quick' else [rng.choice(['list', 'str', 'wire'])]
                 for form in forms:
                     key_name = kn if rng.random() < 0.7 else [c.hex() for c in PK.rand_name(rng)][:2] + ['08034b4559', _gc('k%d' % rng.randrange(9))]
-                    yield _fix_kl_form(_base(rng, fn=fn, issuer=sg, key_name=key_name, kl=_locator(kind, key_name, rng), kl_kind=kind,
-                                             kl_form=form, prior=rng.choice([0, 1, 2, 3]), start=_rand_time(rng),
-                                             now=[2024, 5, 6, 7, 8, 9], kn_form=rng.choice(['list', 'str', 'wire'])))
+                    c = _fix_kl_form(_base(rng, fn=fn, issuer=sg, key_name=key_name, kl=_locator(kind, key_name, rng), kl_kind=kind,
+                                           kl_form=form, prior=rng.choice([0, 1, 2, 3]), start=_rand_time(rng),
+                                           now=[2024, 5, 6, 7, 8, 9], kn_form=rng.choice(['list', 'str', 'wire'])))
+                    yield c
+                    # the same call by a signer that was configured with other locators while it issued 1..3 certificates before
+                    c = dict(c, prior=rng.choice([1, 2, 3]), ts=rng.randint(0, 2 ** 48))
+                    c['kl_seq'] = _kl_seq(c, rng)
+                    yield c
 
 
 def _gc(text):
@@ -330,6 +345,8 @@ def _random_case(rng, tier):
         case['kl'] = _locator(case['kl_kind'], key_name, rng)
     if case.get('kl') is not None:
         _fix_kl_form(case)
+        if case.get('prior') and rng.random() < 0.6:
+            case['kl_seq'] = _kl_seq(case, rng)
     if start[0] < 2 and (case.get('tz') or case.get('tz_s') or case.get('zone')):
         start[0] = 2          # 0001-01-01 expressed in a zone behind UTC is not a datetime the harness could hand over
     if case['kn_form'] in ('str', 'strlist', 'mixed') and any(c[:2] in ('32', '34', '36', '38', '3a') for c in key_name):
@@ -555,6 +572,8 @@ def shrink(case):
         yield dict(case, key_name=case['key_name'][1:])
     if case['expire'] > 1:
         yield dict(case, expire=case['expire'] // 2)
+    if case.get('prior', 0) > 1:
+        yield dict(case, prior=case['prior'] - 1)
 
 
 def _pub_key(case):
@@ -827,14 +846,20 @@ def run_impl(case):
     from ndn.app_support import security_v2 as sv
     from ndn import encoding as enc
     out = {}
+    def in_form(comps, form):
+        comps = [bytes.fromhex(c) for c in comps]
+        return PK.uri_name(comps) if form == 'str' else bytes(enc.Name.to_bytes(comps)) if form == 'wire' else comps
     kl = None
     if case.get('kl') is not None:
-        kl = [bytes.fromhex(c) for c in case['kl']]
-        kl = PK.uri_name(kl) if case.get('kl_form') == 'str' else bytes(enc.Name.to_bytes(kl)) if case.get('kl_form') == 'wire' else kl
+        kl = in_form(case['kl'], case.get('kl_form'))
     import copy
-    kl_before = copy.deepcopy(bytes(kl) if isinstance(kl, (bytes, bytearray)) else kl)
+    kl_before = copy.deepcopy(kl)
+    # the locators the signer is configured with while it issues its earlier certificates ('kl_seq': the application
+    # RECONFIGURES the signer object between calls - key_locator_name is a plain attribute -, e.g. from the key name to the
+    # name of the certificate it has just obtained); case['kl'] is the one in force for the call under test
+    seq = [in_form(e['kl'], e.get('form')) for e in case.get('kl_seq') or []] if kl is not None else []
     # ONE signer object for every call of this case
-    signer = _recording(PK.make_signer(case['issuer'], key_name=kl, key_form=case.get('key_form')))
+    signer = _recording(PK.make_signer(case['issuer'], key_name=seq[0] if seq else kl, key_form=case.get('key_form')))
     key_name = [bytes.fromhex(c) for c in case['key_name']]
     form = case.get('kn_form', 'list')
     if form == 'str':
@@ -871,6 +896,8 @@ def run_impl(case):
             # second use: the same signer object has issued other certificates before (an application's signer lives as
             # long as its keychain); what it did then must not show in this certificate
             for i in range(case.get('prior', 0)):
+                if seq and i > 0:
+                    signer.key_locator_name = seq[i % len(seq)]
                 if i == 0:
                     sv.derive_cert('/prior/KEY/%d' % i, 'earlier', b'\x30' * (50 + i), signer,
                                    _dt.datetime(2001, 2, 3, 4, 5, 6), 77)
@@ -880,6 +907,8 @@ def run_impl(case):
                     sv.sign_req('/prior/KEY/%d' % i, b'\x32' * 91, signer)
             signer._log.clear()
             clock[0] = now
+            if seq:
+                signer.key_locator_name = kl        # the locator in force for the call under test
             rec = signer
             if case['fn'] == 'self':
                 name, wire = sv.self_sign(key_name, pub_arg, rec)
@@ -1095,6 +1124,8 @@ def tags(case, impl):
         t.append('prior-certificates-of-the-signer:%d' % case.get('prior', 0))
         t.append('key-form:' + case.get('key_form', 'der'))
         t.append('key-locator:' + (case.get('kl_form', 'list') if case.get('kl') is not None else 'default-text'))
+        if case.get('kl_seq'):
+            t.append('signer-reconfigured-before-the-call:%s' % ('away-and-back' if case['kl_seq'][0]['kl'] == case['kl'] else 'from-another-locator'))
         if case.get('kl') is not None:
             t.append('key-locator-is:%s,%s' % ('the-key-name' if case['kl'] == case['key_name'] else case.get('kl_kind', 'other'), case['fn']))
         t.append('pub-form:' + case.get('pub_form', 'bytes'))
